@@ -229,6 +229,17 @@ def main():
     R.log('building harness (2 profiles) against ' + R.REPO)
     ok, out = R.build_harness()
     if not ok:
+        cfail = R.const_eval_failure(out)
+        if cfail:
+            # the crate's own code panics (debug assertion / overflow check / index / expect) while the compiler evaluates it on
+            # one of the harness' valid constants: a panic inside the documented domain, with that constant as the input
+            os.makedirs(os.path.join(R.VERIF, 'replays'), exist_ok=True)
+            rpath = os.path.join(R.VERIF, 'replays', f'{PID}-{tier}-{seed}-consteval.json')
+            json.dump(dict(property=PID, violation=True, kind='const evaluation of crate code panics on a valid constant input',
+                           **cfail, replay_cmd='cd harness && cargo build --offline --release && cargo build --offline --profile dbgchk'),
+                      open(rpath, 'w'), indent=1)
+            print(f'VIOLATION property={PID} replay={rpath}')
+            sys.exit(1)
         print(f'ERROR harness does not build against the current tree\n{out}')
         sys.exit(2)
 
